@@ -2,6 +2,12 @@
 claim("C10", "path-sensitive event/typestate simulation (ESP) over go/ssa with interprocedural summaries",
       "Decides on every path of rotate.Key / rotate.Bootstrap (all fault positions = :fail edges of the tracked calls) that the old key is destroyed only after Finalize succeeded, that no persistent step runs after a failed step, and that a nil return implies all steps succeeded. A structural necessary condition of failure-atomicity; it does not show that the surviving state works.",
       "DESIGN.md §3 C10")
+claim("C14", "ESP path simulation of the retry loop and the attempt function + CFG loop-shape rule + backward slice of the parsed manifest bytes",
+      "Decides on every path of endorse.RetrySubmit and the attempt function: a further attempt only after a failure the back end marked retriable; every back edge passes a counter increment and a CommitRetries comparison with a loop exit; nil return only after a successful attempt; workspace obtained per attempt and destroyed on every failing exit; Result once and only after a successful commit; manifest re-read from the attempt's workspace. The attempt count as a number is not decided.",
+      "DESIGN.md §3 C14")
+claim("C15", "flag-sensitive ESP reachability of effect events + who-may-call closure scan + store/address-taken scan + flag-wiring slice",
+      "Decides that no workspace/VCS effect call is reachable on any path where DryRun may be true, that no key/CA/VCS call is reachable where MeasurementOnly may be true or from the measurement computation at all, that both flags are immutable after registration and wired to the installed Context, and that printed and signed measurements come from one computation.",
+      "DESIGN.md §3 C15")
 PENDING = "static rules designed in DESIGN.md §3 but not implemented yet in this revision; not claimed until the rule set lands"
-for p in ["C01","C02","C03","C04","C05","C06","C07","C08","C09","C11","C12","C13","C14","C15","C16","C17","C18","C19","C20"]:
+for p in ["C01","C02","C03","C04","C05","C06","C07","C08","C09","C11","C12","C13","C16","C17","C18","C19","C20"]:
     na(p, PENDING)
